@@ -67,11 +67,18 @@ def check_fallback(rep, text, cfg, kind):
     pp = d.pp_desc
     whole = [t for t in d.tracts if t.desc == pp]
     why = None
+    tag = None
     if len(whole) > 1:
         why = 'two tracts both carry the complete text'
     elif kind in ('no_twprge', 'no_sec', 'colon_required'):
         if not one_whole(d.tracts, pp):
             why = f'{kind}: expected exactly one fallback tract with the whole text'
+            # listed finding: a fallback decided for a chunk (the description as a whole was not deduced to be copy_all) goes
+            # through the parser's clean_up default, so separators / connectors at the two ends of the text are trimmed
+            from pytrs.parser.plssdesc.plss_parse import cleanup_desc
+            if (len(d.tracts) == 1 and d.current_layout != 'copy_all' and d.tracts[0].desc != pp
+                    and d.tracts[0].desc == cleanup_desc(pp)):
+                tag = 'C11-fallback-trimmed'
         else:
             t = d.tracts[0]
             both = t.twp_num is not None and t.sec_num is not None
@@ -79,7 +86,7 @@ def check_fallback(rep, text, cfg, kind):
                 why = 'fallback without an error flag although Twp/Rge or section is missing'
     if why:
         rep.violation('failing-input', {'text': text, 'config': cfg, 'kind': kind, 'why': why,
-                                        'tracts': [(t.trs, t.desc) for t in d.tracts][:5], 'e_flags': d.e_flags})
+                                        'tracts': [(t.trs, t.desc) for t in d.tracts][:5], 'e_flags': d.e_flags}, tag=tag)
 
 
 def run(ctx):
@@ -123,6 +130,9 @@ def run(ctx):
             txt = descs.malformed(r)
             kind = 'any'
             cfg = descs.valid_config(r)
+        if kind in ('no_twprge', 'no_sec') and r.chance(1, 2):
+            # text whose ends are what cleanup_desc would trim (the whole text must be kept verbatim all the same)
+            txt = r.choice(['', '. ', ', ', '- ', ': ']) + txt + r.choice([';', ',', ' of', ' in', ' and', ' the', ' all of', ' -', ':', ' all in'])
         safely(rep, 'fallback', check_fallback, txt, cfg, kind)
         rep.count()
         rep.nontrivial((txt, kind))
